@@ -656,15 +656,20 @@ func checkC11(c *Ctx, r *Report) {
 			})
 		}
 		r.Floor("C11.R3", nRet, 1, "returns of a cached certificate")
-		// expired edge reaches createCert
-		cr := findCall(f, "(*"+certsPkg+".PrivateCA).createCert")
+		// expired edge reaches createCert (either may sit in a helper: both are compared in the deepest body they share)
+		var cr *ssa.Call
+		var crCtx dctx
+		for _, hc := range hcs {
+			if x := findCall(hc.fn, "(*"+certsPkg+".PrivateCA).createCert"); x != nil && cr == nil {
+				cr, crCtx = x, hc.ctx
+			}
+		}
 		okRepl := false
 		if del != nil && cr != nil {
-			if len(delCtx) == 0 {
-				okRepl = reachableInstr(del, cr, nil)
-			} else {
+			d, x := liftPair(del, delCtx, cr, crCtx)
+			okRepl = d != x && reachableInstr(d, x, nil)
+			if len(delCtx) > 0 {
 				// the delete sits in a helper: after it the helper reports "nothing cached" and the caller goes on to issue
-				okRepl = reachableInstr(delCtx[0], cr, nil)
 				for _, e := range walkFrom(pos{del.Block(), 0}, nil, isReturn, nil) {
 					if ret := e.(*ssa.Return); reachableInstr(del, ret, nil) && !isRecoverReturn(ret) {
 						if vals := retVals(ret); len(vals) > 0 && strings.HasPrefix(atomStr(vals[0]), "Get($ca.certs,") {
@@ -736,17 +741,24 @@ func checkC11(c *Ctx, r *Report) {
 			})
 		}
 		r.Check(marginOK, "C11.R3", "a certificate about to expire is not reused", c.Pos(f.Pos()), "NotAfter is compared with time.Now() plus a positive margin", "the reuse test compares NotAfter with the current instant: a tunnel opened milliseconds before the expiry is presented a certificate that has expired by the time the client verifies it")
-		// stored certificate is the one returned
-		set := findCall(f, "(*reservoir/utils/syncmap.SyncMap).Set")
+		// stored certificate is the one returned: by the body that stores it, and from there up to GetCertForHost
+		// (`return ca.issueCertLocked(host)`)
 		okSet := false
-		if set != nil {
-			eachInstr(f, func(in ssa.Instruction) {
+		for _, hc := range hcs {
+			set := findCall(hc.fn, "(*reservoir/utils/syncmap.SyncMap).Set")
+			if set == nil {
+				continue
+			}
+			eachInstr(hc.fn, func(in ssa.Instruction) {
 				if ret, ok := in.(*ssa.Return); ok && !isRecoverReturn(ret) {
-					if sameVal(retVals(ret)[0], callArgs(set)[2]) {
+					if vs := retVals(ret); len(vs) > 0 && sameVal(vs[0], callArgs(set)[2]) {
 						okSet = true
 					}
 				}
 			})
+			for i := len(hc.ctx) - 1; i >= 0 && okSet; i-- {
+				okSet = returnsResultOf(hc.ctx[i], 0)
+			}
 		}
 		r.Check(okSet, "C11.R2", "the certificate stored is the one returned", c.Pos(f.Pos()), "Set(host, cert); return cert", "the certificate put into the map is not the one handed to the caller")
 	}
